@@ -64,7 +64,7 @@ def _validate_chunks(c, events, n_chunks):
         vlib.write_ndjson(p, ch)
         paths.append(p)
     with cf.ThreadPoolExecutor(max_workers=n_chunks) as ex:
-        results = list(ex.map(lambda a: vlib.validate_trace('Trace_Taps', a[0], n_events=len(a[1]), heap='4g', timeout=3000, env=JVM_ENV),
+        results = list(ex.map(lambda a: vlib.validate_trace('Trace_Taps', a[0], n_events=len(a[1]), heap='3g', timeout=3000, env=JVM_ENV),
                               zip(paths, chunks)))
     rejects = 0
     for r, ch in zip(results, chunks):
@@ -170,9 +170,10 @@ def run(tier):
     gens = [('context', 'MC_Taps_gen_context_q.cfg'), ('geometry', 'MC_Taps_gen_geom_q.cfg')] if q else \
            [('context', 'MC_Taps_gen_context_t.cfg'), ('geometry', 'MC_Taps_gen_geom_t.cfg'), ('geometry', 'MC_Taps_gen_geom2_t.cfg')]
     with cf.ThreadPoolExecutor(max_workers=4 if q else 3) as ex:
-        fd = [ex.submit(vlib.mc, 'Taps', cfg, expect='pass', workers=w, actions_required=ACTIONS, timeout=1500) for cfg, w in designs]
+        fd = [ex.submit(vlib.mc, 'Taps', cfg, expect='pass', workers=w, actions_required=ACTIONS, timeout=1500, heap='4g')
+              for cfg, w in designs]
         fg = [ex.submit(vlib.scenarios, 'Taps', cfg, timeout=900) for _, cfg in gens]
-        fn = [ex.submit(vlib.mc, 'Taps', 'MC_Taps_neg_%s.cfg' % v, expect='fail', expect_inv=inv, workers=2, timeout=600)
+        fn = [ex.submit(vlib.mc, 'Taps', 'MC_Taps_neg_%s.cfg' % v, expect='fail', expect_inv=inv, workers=2, timeout=600, heap='2g')
               for v, inv in NEGATIVES]
         for f in fd:
             c.add_mc(f.result(), 'design')
@@ -191,7 +192,7 @@ def run(tier):
     trace = os.path.join(vlib.scratch(), 'taps.ndjson')
     vlib.run_driver('drive_taps.py', [trace, tier, c.seed] + scn_files)
     events = vlib.read_ndjson(trace)
-    rejects = _validate_chunks(c, events, 4 if q else 8)
+    rejects = _validate_chunks(c, events, 4 if q else 6)
     c.samples = [vlib._shorten(e, 900) for e in events if e['src'] == 'random' and e['calls']][:2] + \
                 [vlib._shorten(e, 600) for e in events if e['src'] != 'random' and e['calls']][:2]
     if not rejects:
